@@ -93,6 +93,46 @@ async def fail_all_scenario(n_queued, n_flight):
     return problems
 
 
+async def close_scenario():
+    """stop(): a send() racing with the final flush must be refused, not accepted into a batch no flush covers"""
+    from aiokafka.producer.message_accumulator import MessageAccumulator
+    from aiokafka.errors import ProducerClosed
+    from aiokafka.structs import TopicPartition
+    tp, late = TopicPartition("f", 0), TopicPartition("f", 1)
+    acc = MessageAccumulator(_Cluster({tp: 1, late: 1}), 1 << 16, 0, 1000, linger_ms=1000)
+    await acc.add_message(tp, b"k", b"v", 1)
+    acc._batches[tp][0]._linger_time = 0
+    nodes, _ = acc.drain_by_nodes(ignore_nodes=[])
+    batch = nodes[1][tp]
+    task = asyncio.ensure_future(acc.close())
+    await asyncio.sleep(0)
+    await asyncio.sleep(0)
+    problem = None
+    try:
+        fut = await acc.add_message(late, b"k2", b"v2", 1)
+    except ProducerClosed:
+        fut = None
+    batch.done_noack()
+    await asyncio.sleep(0.01)
+    if fut is not None and task.done() and not fut.done():
+        problem = ("close() (producer.stop()) returned while a record accepted after it had started its final flush is "
+                   "still unresolved: the record was accepted into a batch the flush does not cover")
+    if not task.done():
+        task.cancel()
+    try:
+        await task
+    except BaseException:
+        pass
+    return problem
+
+
+def close_sweep():
+    async def main():
+        r = await close_scenario()
+        return [r] if r else []
+    return asyncio.run(main())
+
+
 def fail_all_sweep():
     async def main():
         out = []
@@ -102,10 +142,39 @@ def fail_all_sweep():
     return asyncio.run(main())
 
 
+async def stalled_scenario(api):
+    """an in-flight batch that stays unacknowledged for several batch TTLs (an idempotent/transactional producer never
+    expires a batch): the call must still be waiting"""
+    from aiokafka.producer.message_accumulator import MessageAccumulator
+    from aiokafka.structs import TopicPartition
+    tp = TopicPartition("f", 0)
+    acc = MessageAccumulator(_Cluster({tp: 1}), 1 << 16, 0, 0.05)
+    await acc.add_message(tp, b"k", b"v", 1)
+    nodes, _ = acc.drain_by_nodes(ignore_nodes=[])
+    batch = nodes[1][tp]
+    task = asyncio.ensure_future(getattr(acc, api)())
+    await asyncio.sleep(0.3)
+    problem = None
+    if task.done():
+        problem = "%s() returned after 0.3 s although the in-flight batch is still unacknowledged (batch ttl 0.05 s)" % api
+    batch.done_noack()
+    await asyncio.sleep(0.01)
+    if not task.done():
+        task.cancel()
+    try:
+        await task
+    except BaseException:
+        pass
+    return problem
+
+
 def sweep():
     async def main():
         out = []
         for api in ("flush", "flush_for_commit"):
+            r = await stalled_scenario(api)
+            if r:
+                out.append(r)
             for n_queued, n_flight in ((1, 1), (2, 1), (1, 2), (2, 0), (0, 2)):
                 n = n_queued + n_flight
                 for order in itertools.permutations(range(n)):
